@@ -355,7 +355,14 @@ def main(rep: Report, replay: dict | None) -> None:
             for t, task in zip(recorded, tasks):
                 t["wseed"] = task["wseed"]
             lap("record_histories")
-            f_hist = ex.submit(validate, recorded, "c20-c2s")
+            # canary: a corrupted copy of a recorded trace (one observed value flipped in its first
+            # event) rides along; the Trace spec must reject it at that event
+            src = next(t for t in recorded if t["fam"] == "iterm2")
+            canary = json.loads(json.dumps(_trace_json(src)))
+            canary["ev"] = canary["ev"][:1]
+            v0 = canary["ev"][0]["eff"]["rf"][0]
+            canary["ev"][0]["eff"]["rf"][0] = "bool:0" if v0 == "bool:1" else "bool:1"
+            f_hist = ex.submit(validate, recorded + [canary], "c20-c2s")
 
             # ---- spec -> code: replay every edge
             res_e = f_edges.result()
@@ -391,8 +398,13 @@ def main(rep: Report, replay: dict | None) -> None:
 
             res_mc = f_mc.result()
             lap("wait_model_check")
-            hist_validated = f_hist.result()
+            hv, hst, htr = f_hist.result()
             lap("wait_validate_histories")
+            cv = hv.pop()
+            if cv["verdict"] == "ok" or cv["at"] != 1:
+                raise tlc.MachineryError(f"c20: Trace_StyleSettings accepted a corrupted trace: {cv}")
+            rep.extra["canary"] = {"corrupted_trace_verdict": cv["verdict"], "tampered_edge": "noticed"}
+            hist_validated = (hv, hst, htr)
     finally:
         pool.terminate()
         pool.join()
@@ -406,7 +418,11 @@ def main(rep: Report, replay: dict | None) -> None:
     mc_cov = require_actions(res_mc, "the model-checking run")
     rep.extra["model"] = {"states": res_mc.distinct, "transitions": res_mc.generated, "depth": res_mc.depth,
                           "actions_generated": mc_cov, "wall_s": round(res_mc.wall_s, 1)}
-    rep.exhaustive = not quick  # thorough: the complete reachable state space of the 7-node model
+    rep.exhaustive = True
+    rep.extra["exhaustive_space"] = (
+        "7-node tree (5 classes, 2 instances), per family x setting: every override map with at most "
+        + ("5" if quick else "7 (= all)") + " overridden nodes model-checked with every operation of the alphabet; "
+        "every edge between maps with at most " + ("2" if quick else "3") + " overridden nodes replayed on the real classes")
 
     # ---- replay results
     steps = sum(r["steps"] for r in results)
@@ -431,17 +447,6 @@ def main(rep: Report, replay: dict | None) -> None:
                               "events_judged": sum(v["judged"] for v in verdicts),
                               "max_classes": max(t["nc"] for t in recorded),
                               "rejected": sum(1 for v in verdicts if v["verdict"] != "ok")}
-
-    # ---- canary: a corrupted recorded trace must be rejected by the Trace spec
-    good = next((t for t, v in zip(recorded, verdicts) if v["verdict"] == "ok" and t["fam"] == "iterm2"), None)
-    if good is not None:
-        bad = json.loads(json.dumps(_trace_json(good)))
-        bad["ev"][-1]["eff"]["rf"][0] = "bool:0" if bad["ev"][-1]["eff"]["rf"][0] == "bool:1" else "bool:1"
-        vs, _, _ = tlc.validate_traces("Trace_StyleSettings", "Trace_StyleSettings.cfg", [bad], workers=2,
-                                       timeout=300, name="c20-canary")
-        if vs[0]["verdict"] == "ok":
-            raise tlc.MachineryError("c20: Trace_StyleSettings accepted a corrupted trace")
-        rep.extra["canary"] = {"corrupted_trace_verdict": vs[0]["verdict"], "tampered_edge": "noticed"}
 
     w0 = walks[0]
     rep.sample({"walk": [{k: v for k, v in e["op"].items() if k != "exp"} for e in w0[:6]],
